@@ -1,10 +1,11 @@
-\* HTTP outcomes logged by driver c20http, quick tier (tables with at most 1 carrier)
+\* HTTP outcomes logged by driver c20http, quick tier (tables with at most 2 carriers, one an ancestor of the other)
 SPECIFICATION TrSpec
 CONSTANTS
     NameOrder <- MCHttpNames
     GrantPathOrder <- MCHttpGrant
     OptOrder <- MCOptOrder
-    MaxGranted = 1
+    MaxGranted = 2
+    ChainOnly = TRUE
     AdminMaxGranted = 0
     MaxSegs = 0
     RelPathOrder <- MCEmpty
